@@ -9,7 +9,8 @@ SRC=$ROOT/out/$ID/$K
 [ -d $SRC ] || SRC=/verif/benign/$ID-$K
 WT=/tmp/tb-$ID-$K-$$
 git -C /repo worktree prune; git -C /repo worktree add -q --detach $WT || exit 2
-(cd $WT && git apply $SRC/patch.diff) || { echo "$ID-$K patch does not apply"; git -C /repo worktree remove --force $WT; exit 2; }
+P=$SRC/patch.diff; [ -f $SRC/patch.rebased.diff ] && P=$SRC/patch.rebased.diff
+(cd $WT && git apply $P) || { echo "$ID-$K patch does not apply"; git -C /repo worktree remove --force $WT; exit 2; }
 suite=$(cd $WT && go build ./... 2>&1 && go test -vet=off -count=1 ./... 2>&1 | grep "^--- FAIL" | grep -v "TestRunInteractive\|Example_vmHttp" | tr '\n' ' ')
 res=""
 for c in $CHECKS; do
